@@ -177,6 +177,23 @@ func c18objects(seed int64, keys *gen.KeyRing, n int) []*c18object {
 					{"Headers.MarshalProtected", func() string { return resBytes(m.Headers.MarshalProtected()) }},
 				}
 				out = append(out, o)
+				// the same with a slip of the caller: RawProtected holds the serialized map itself instead of
+				// the byte string wrapping it (and other things that are not one byte string). Whatever the
+				// operations answer, they answer it without rewriting the shared message.
+				for bi, badRaw := range [][]byte{content, append(append([]byte{}, rawProt...), 0xa0), {0x40, 0x40}, rawProt[:len(rawProt)-1], append([]byte{0xd8, 0x18}, rawProt...)} {
+					mb := &cose.Sign1Message{Headers: cose.Headers{RawProtected: append(make([]byte, 0, len(badRaw)+16), badRaw...), RawUnprotected: []byte{0xa0}}, Payload: payload, Signature: sig}
+					ob := &c18object{name: fmt.Sprintf("sign1-raw-protected-not-one-bstr-%d-%d", i, bi), kind: "sign1-raw-protected-not-one-bstr", alg: k.Name}
+					csb := &cose.Countersignature{Headers: cose.Headers{Protected: cose.ProtectedHeader{int64(1): k.Alg}}, Signature: mon.FixedSig}
+					ob.state = func() []any { return []any{mb, csb, k.Verifier} }
+					ob.ops = []c18op{
+						{"Verify", func() string { return resErr(mb.Verify(nil, k.Verifier)) }},
+						{"MarshalCBOR", func() string { return resBytes(mb.MarshalCBOR()) }},
+						{"Untagged.Verify", func() string { return resErr((*cose.UntaggedSign1Message)(mb).Verify(nil, k.Verifier)) }},
+						{"Headers.MarshalProtected", func() string { return resBytes(mb.Headers.MarshalProtected()) }},
+						{"Countersignature.Verify(as parent)", func() string { return resErr(csb.Verify(k.Verifier, mb, nil)) }},
+					}
+					out = append(out, ob)
+				}
 				continue
 			}
 		}
